@@ -25,6 +25,11 @@ def run(ctx):
                                extra={"syscall": ["-DVP_SYSRAND_SYSCALL"], "device": ["-DVP_SYSRAND_DEVICE"], "device-fd0": ["-DVP_SYSRAND_DEVICE", "-DVP_SYSRAND_FD=0"]}.get(tag, []))
         for a in range(22):
             jobs.append((exe, [3 if t else 2, a, a + 1, 0], be + "-" + tag))
+    # a platform without any known random source (ascon-trng-none.c): a pool fed by the clocks and by the application's ascon_trng_get_bytes() hook; fresh process per run
+    for be in (("asm", "c32") if t else ("asm",)):
+        lib = build.build_lib(be, extra=["-U__linux__", "-U__linux", "-Ulinux", "-U__unix__", "-U__unix", "-Uunix", "-w"], tag="none")
+        ctx.configs.append(lib["desc"] + " no known random source")
+        jobs.append((build.build_prog("c15_none", ["harness/c15_none.c"], lib, opt="-O1"), [], be + "-no-known-source"))
     common.parallel(lambda j: common.run_harness(ctx, j[0], j[1], label=j[2]), jobs)
     ctx.assumptions += [
         "the system source is libc getrandom() -- in further configurations getentropy(), syscall(SYS_getrandom) and the /dev/urandom device (descriptor 100 and descriptor 0) -- defined by the harness (scripted tape, per-call failure plan); the library's own ascon-trng-dev-random.c stays in place",
